@@ -122,6 +122,8 @@ def h09a_pre(mask, ttls, label, k1, k2):
         if S("tier") == "quick" and not (k1 in CHUNKS and k2 in CHUNKS):
             return False
         return 0 <= k1 <= 40 and 0 <= k2 <= 40 and (k1 == 0 or k2 == 0 or k1 == k2)
+    if S("k1") is not None and k1 != S("k1"):
+        return False
     return 0 <= k1 <= 3 and k2 == 0
 
 
@@ -140,7 +142,9 @@ def h09a_shards(tier):
             # symbolic owner octet (escapes in owner names), default style
             out.append({"zone": kind, "relativize": rel, "group": "generic", "masks": (0, 1), "label": True, "ttls": True, "_timeout": 900, "_path_timeout": 120})
     # membership and TTL choice symbolic, default knobs
-    out.append({"zone": "plain", "relativize": True, "group": "generic", "masks": (0, 16), "label": False, "ttls": True, "_timeout": 1500, "_path_timeout": 120})
+    # (one shard per membership mask; the TTL of every member is a symbolic choice among 4; default knobs)
+    for m in range(8 if tier == "quick" else 32):
+        out.append({"zone": "plain", "relativize": True, "group": "generic", "masks": (m, m + 1), "label": False, "ttls": True, "k1": 0, "_timeout": 1500, "_path_timeout": 120})
     return out
 
 
@@ -263,7 +267,7 @@ HARNESSES = [
     Harness("H09a", h09a, h09a_pre, h09a_shards, kind="finite selection of style knobs / members with universal owner octet",
             encodes=["dns.zone.Zone.to_styled_file", "dns.rdataset.Rdataset.to_styled_text", "dns.node.Node.to_styled_text", "dns.zone.from_text",
                      "dns.zonefile.Reader.read", "dns.zonefile.Reader._rr_line", "dns.rdata.Rdata.to_generic", "dns.rdataset.justify"],
-            bound="a 10-rrset zone (wildcard, escaped owner, CNAME, delegation + glue, DNSKEY, TXT with quotes / semicolons / high octets; TTLs 0..2^31-1) under 4 knob groups, one group symbolic at a time: {sorted, want_origin, deduplicate_names, default_ttl} | {name/ttl/class/type justification, left or none} | {base64 and hex chunk sizes 0..40} | {want_generic, want_comments}; plus a symbolic one-octet owner label (all 256 values) and, on the plain zone, symbolic membership (4 rrsets) and TTL choice; zone classes plain, btree (thorough: versioned) x relativize",
+            bound="a 10-rrset zone (wildcard, escaped owner, CNAME, delegation + glue, DNSKEY, TXT with quotes / semicolons / high octets; TTLs 0..2^31-1) under 4 knob groups, one group symbolic at a time: {sorted, want_origin, deduplicate_names, default_ttl} | {name/ttl/class/type justification, left or none} | {base64 and hex chunk sizes 0..40; quick: 10 pooled sizes, and 18 of the 81 justification combinations} | {want_generic, want_comments}; plus a symbolic one-octet owner label (all 256 values) and, on the plain zone, every membership of the first 3 (thorough: 5) pool rrsets with a symbolic TTL choice (4 values) per member; zone classes plain, btree (thorough: versioned) x relativize",
             stubs=["E2", "E3", "E4", "E6"], outside="knob combinations across groups; zones with > 10 rrsets; $INCLUDE; options documented as lossy"),
     Harness("H09b", h09b, h09b_pre, lambda tier: [{"relativize": r, "_timeout": 1200, "_path_timeout": 120} for r in (True, False)], kind="finite selection, exhaustive",
             encodes=["dns.zonefile.Reader._rr_line", "dns.zonefile.Reader.read", "dns.zonefile.Reader._generate_line", "dns.zonefile.Reader._parse_modify",
